@@ -70,6 +70,9 @@ pub fn handle(line: &str) -> String {
         req[k].as_array().map(|a| a.iter().filter_map(|x| x.as_str()).map(PathBuf::from).collect()).unwrap_or_default()
     };
     let curve = Curve::from_str(req["curve"].as_str().unwrap_or("BN254")).unwrap_or_default();
+    // pass budgets (hook H2), as in `lift`: absent = the real time box only
+    program_structure::cfg::verif::VALUE_PASSES.with(|b| b.set(req["value_passes"].as_u64().map(|x| x as usize)));
+    program_structure::cfg::verif::DEGREE_PASSES.with(|b| b.set(req["degree_passes"].as_u64().map(|x| x as usize)));
     let (mut runner, reports) = AnalysisRunner::new(curve).with_libraries(&paths("libs")).with_files(&paths("inputs"));
     let mut w = Collect::default();
     w.write_reports(&reports, runner.file_library());
